@@ -6,37 +6,6 @@ fn emit_nodes(
     emit_nodes_with_continuation(nodes, scope, context, None)
 }
 
-/// Recursively replace `old_path` and its descendants with `new_path` in
-/// path-bearing runtime fields within a JSON value tree.
-fn fix_divert_paths(value: &mut Value, old_path: &str, new_path: &str) {
-    match value {
-        Value::Object(map) => {
-            for field in ["->", "x->", "*", "^->", "CNT?"] {
-                if let Some(v) = map.get_mut(field)
-                    && let Some(path) = v.as_str()
-                {
-                    if path == old_path {
-                        *v = Value::String(new_path.to_owned());
-                    } else if let Some(suffix) = path.strip_prefix(old_path)
-                        && suffix.starts_with('.')
-                    {
-                        *v = Value::String(format!("{new_path}{suffix}"));
-                    }
-                }
-            }
-            for v in map.values_mut() {
-                fix_divert_paths(v, old_path, new_path);
-            }
-        }
-        Value::Array(arr) => {
-            for v in arr.iter_mut() {
-                fix_divert_paths(v, old_path, new_path);
-            }
-        }
-        _ => {}
-    }
-}
-
 fn threaded_loop_label_for_choice_block(continuation: &[Node]) -> Option<(String, bool)> {
     let mut nodes = continuation;
     while !nodes.is_empty() && matches!(nodes[0], Node::Newline) {
@@ -228,24 +197,6 @@ fn analyze_weave_choice_section<'a>(
         choices,
         continuation_nodes: continuation,
         mode: ChoiceEmissionMode::Flat,
-    }
-}
-
-/// Replace any divert to `self_path` immediately before the terminator of a
-/// JSON array with `"done"`, to avoid self-referential loops after hoisting.
-fn replace_self_divert_with_done(value: &mut Value, self_path: &str) {
-    let Value::Array(arr) = value else { return };
-    // The array ends with either null or a terminator object (last element).
-    // Check the element just before the terminator.
-    let n = arr.len();
-    if n < 2 {
-        return;
-    }
-    let candidate = n - 2; // element just before terminator
-    if let Value::Object(map) = &arr[candidate]
-        && map.get("->").and_then(Value::as_str) == Some(self_path)
-    {
-        arr[candidate] = json!("done");
     }
 }
 
@@ -461,34 +412,12 @@ fn emit_nodes_with_continuation(
                 if *indent > 0 {
                     let remaining = &nodes[index + 1..];
                     let sub_scope = scope.choice_branch(label);
-                    let mut sub_container = emit_nodes_with_continuation(
+                    let sub_container = emit_nodes_with_continuation(
                         remaining,
                         &sub_scope,
                         context,
                         fallback_continuation,
                     )?;
-                    let g_keys: Vec<String> = sub_container
-                        .named
-                        .keys()
-                        .filter(|key| key.starts_with("g-"))
-                        .cloned()
-                        .collect();
-                    for key in &g_keys {
-                        let old_path = format!("{}.{}", sub_scope.path, key);
-                        let new_path = format!("{}.{}", scope.path, key);
-                        for value in sub_container.content.iter_mut() {
-                            fix_divert_paths(value, &old_path, &new_path);
-                        }
-                        for value in sub_container.named.values_mut() {
-                            fix_divert_paths(value, &old_path, &new_path);
-                        }
-                    }
-                    for key in g_keys {
-                        let mut value = sub_container.named.remove(&key).unwrap();
-                        let hoisted_path = format!("{}.{}", scope.path, key);
-                        replace_self_divert_with_done(&mut value, &hoisted_path);
-                        out.insert_named(key, value);
-                    }
                     let gather_path = format!("{}.{}", scope.path, label);
                     let count_flags = gather_count_flags(&gather_path, context);
                     out.push(sub_container.into_json_array(Some(label), count_flags)?);
@@ -555,28 +484,6 @@ fn emit_nodes_with_continuation(
                         sub_container.push(token);
                     }
 
-                    let g_keys: Vec<String> = sub_container
-                        .named
-                        .keys()
-                        .filter(|key| key.starts_with("g-"))
-                        .cloned()
-                        .collect();
-                    for key in &g_keys {
-                        let old_path = format!("{}.{}", sub_scope.path, key);
-                        let new_path = format!("{}.{}", scope.path, key);
-                        for value in sub_container.content.iter_mut() {
-                            fix_divert_paths(value, &old_path, &new_path);
-                        }
-                        for value in sub_container.named.values_mut() {
-                            fix_divert_paths(value, &old_path, &new_path);
-                        }
-                    }
-                    for key in g_keys {
-                        let mut value = sub_container.named.remove(&key).unwrap();
-                        let hoisted_path = format!("{}.{}", scope.path, key);
-                        replace_self_divert_with_done(&mut value, &hoisted_path);
-                        out.insert_named(key, value);
-                    }
 
                     let gather_path = format!("{}.{}", scope.path, gather_label);
                     let count_flags = gather_count_flags(&gather_path, context);
